@@ -69,5 +69,15 @@ claim("C06", "model_checking",
       "(never from module internals). Behaviours are a seeded sample (VERIF_SEED), not exhaustive; Guderley / Sn / RateStick / ExplosiveArc are not replayed.",
       "TLC model checking of Interp.tla + TLC-generated behaviours replayed with a fresh-process oracle + TLA+ trace validation", "DESIGN.md 9 C06")
 
+claim("C20", "model_checking",
+      "spec/Validation.tla holds the catalogue of documented restrictions (parameter ranges, admissible geometry sets, time domains; DESIGN.md B.1); TLC enumerates every "
+      "probe below / at / above each bound and computes in exact rationals whether it violates ANY restriction on that parameter (ASSUME Covered: each restriction has a "
+      "violating and an admissible probe); every probe is performed on the real class and spec/TraceValidation.tla compares the outcome (ValueError at construction iff "
+      "violated; raise or all-NaN outside the time domain, finite inside). NoGarbage: the FIN clause of spec/Profile.tla on every point of every admissible configuration "
+      "of the scan campaigns (a solver that raises or returns NaN/inf for an admissible configuration is reported).",
+      "Trusted base: TLC; the catalogue is my reading of docstrings / parameter help / error messages (an undocumented restriction is not demanded; Kenamond2 D1 = D2 is admitted because "
+      "the repository's own tests use it); harness/props/C20.py performs the probes from each class's default parameters.",
+      "TLC-enumerated probe catalogue (exact rationals) replayed on the real constructors + TLA+ trace validation; FIN clause over the scan campaigns", "DESIGN.md 9 C20")
+
 for p in [ "C07", "C08", "C09", "C10", "C11", "C12", "C13", "C14", "C15", "C16", "C18", "C19", "C20"]:
     pending(p, "check under construction in this round (design in DESIGN.md section 9); not claimed until it runs soundly on the unchanged tree")
